@@ -7,7 +7,9 @@ RULE = ("V: every (TBS certificate, signer) vector of CertTrust.tla's lattice (t
         "signed, plus isCA x curve x self-signing) is one TLC state with SignOK and the trust rule's verdict on the issued "
         "certificate for every second; each is handed to the real Sign with the CA's own key, issued certificates are decoded "
         "and verified against a pool holding the signer at every second, P-256 signatures are checked for low-S (Sign, and "
-        "SignWith with lambdas returning high-S and low-S signatures); distinct = vector. T: seeded random TBS certificates "
+        "SignWith with lambdas returning high-S and low-S signatures); every issuable v2 vector under a signer with an unsafe-network "
+        "constraint is tried once more with its IPv4 unsafe networks written as IPv4-mapped IPv6 prefixes (must be refused); "
+        "distinct = vector. T: seeded random TBS certificates "
         "(16-bit address universe, dozens of networks and groups) whose logged outcome TLC validates against SignOK. "
         "CLI: nebula-cert ca/sign command functions on files, per constraint class. H: every history of 3 operations "
         "(Sign / SignWith with an external signer / edit of the validity window) on 2-3 long-lived TBS objects x 4-5 CAs "
@@ -121,6 +123,8 @@ def run(ctx):
                             'hist:ok:op=sign', 'hist:ok:self', 'hist:ok:renewed-ca', 'hist:lowS:ext', 'hist:edit',
                             'hist:refused:curve', 'hist:refused:win', 'hist:refused:grp', 'hist:refused:isca',
                             'hist:refused:selfnotca', 'hist:issued:ok', 'hist:issued:exp', 'hist:issued:caexp')
+    if not ctx.violations:      # a violation is a verdict; vacuity only matters for a pass
+        ctx.require_actions('mapped-unsafe:tried', 'mapped-unsafe:refused')
     ctx.require_actions('sign:ok', 'class:ok', 'class:win', 'class:grp', 'class:net', 'class:unsafe',
                         'class:isca', 'class:curve', 'class:selfnotca', 'issued:self',
                         'lowS:Sign', 'lowS:SignWith(high-S lambda)', 'issued:ok', 'issued:exp', 'issued:caexp',
